@@ -26,6 +26,7 @@ func init() {
 			"(no-newline-marker) a line without a final newline is followed by git's `\\ No newline at end of file` marker, and only such a line; " +
 			"(header-side-agreement) in the file header `old mode`, `rename from`, `deleted file mode` and the left of `index a..b` and of the path lines are computed from the old file only, `new mode`, `rename to`, `new file mode` and the right-hand parts from the new file only, the missing side being the zero hash and /dev/null. " +
 			"(chunks-are-whole-lines-by-construction) utils/diff hands both whole texts to diffmatchpatch's line mode and returns what DiffCharsToLines gives back, and builds no chunk by hand (anything else is reported as unresolved: line alignment of a hand-made chunk is a value question); and within no-newline-marker, every path of op.writeTo that has not found the line terminated writes the marker (the decision depends on the line's own text only). " +
+			"(hunk-state-per-file) UnifiedEncoder.Encode makes a hunks generator per file patch, or re-initialises every mutable field of a reused one, so no context line of one file reaches the next file's first hunk. " +
 			"Not decided: the pairing of lines (utils/diff), hunk boundaries and context, that numstat equals git's for inputs where git's diff algorithm picks another pairing.",
 		Assumptions: []string{},
 		Run:         runC45,
@@ -35,6 +36,7 @@ func init() {
 func runC45(c *Ctx) {
 	p := c.P
 	checkLineModePipeline(c, "chunks-are-whole-lines-by-construction")
+	checkHunkStatePerFile(c, "hunk-state-per-file")
 	const r1 = "binary-flag-independent-of-chunks"
 	const r2 = "binary-flag-from-content-sniffing"
 	const r3 = "hunk-counts-follow-ops"
